@@ -8,6 +8,7 @@ CONSTANTS
   RecoveryModes <- BothModes
   Ops <- AllOps
   Aging = FALSE
+  TwoStep = FALSE
 INVARIANTS NoPanic
 PROPERTIES CallsReturn WaitsReturn PlansEnd
 CHECK_DEADLOCK FALSE
